@@ -12,10 +12,15 @@ git -C /repo worktree add -q --detach $wt HEAD || exit 2
 trap 'git -C /repo worktree remove --force $wt; rm -rf $sc' EXIT INT TERM
 git -C $wt apply "$patch" || exit 2
 mkdir -p $sc "$here/.work"
+# the checks run from a snapshot of the framework taken now, so that edits made to /verif while they run cannot mix versions
+snap=$sc/verif
+mkdir -p $snap
+cp -r "$here/harness" "$here/spec" "$here/check" "$here/known_findings.json" "$here/properties.jsonl" $snap/
+rm -rf $snap/harness/__pycache__
 for c in "$@"; do
   echo "=== seeded $id : check $c"
   log="$here/.work/seeded_${id}_${c}.log"
-  VSG_VERIF_REPO=$wt VSG_VERIF_SCRATCH=$sc "$here/check" "$c" --tier "${VERIF_TIER:-quick}" > "$log" 2>&1
+  VSG_VERIF_REPO=$wt VSG_VERIF_SCRATCH=$sc "$snap/check" "$c" --tier "${VERIF_TIER:-quick}" > "$log" 2>&1
   r=$?
   echo "exit=$r  violations=$(grep -c '^VIOLATION' "$log")"
   grep -A1 '^VIOLATION' "$log" | grep clause | sed 's/input=.*config=/config=/' | sort | uniq -c | sort -rn | head -8
